@@ -10,7 +10,7 @@ import UralModel.Model.C06Netloc
    platform_aware=…, lowercase=True)` — the whole-string model `normalizeUrlStringSplit` with the
    options `fpOpts`; an unparseable URL makes `normalize_url` return the *string* it was given
    (`url.lower()`), and `fingerprint_url` returns it as it is under both `unsplit`
-   (`if not isinstance(splitted, SplitResult): return splitted`, FX-C07-FPTOTAL);
+   (`if not isinstance(splitted, SplitResult): return splitted`, FX-C07-c806a8b);
 3. `.username .password .hostname .port` of that `SplitResult`, read from the netloc
    `normalize_url` assembled — the hand model `pyNetlocAcc` of `Model/C06Netloc.lean`;
 4. `strip_lang_subdomains_from_hostname`, and under `strip_suffix` `split_suffix` through the
